@@ -178,13 +178,10 @@ theorem step_sync (w : World R) (st : St R) (op : Op) (hi : Sync w st) : Sync w 
     cases ht : w.tmpls[t]? with
     | none => simpa using hi
     | some tm =>
-      by_cases hs : w.be.hasSet = true
-      · simp only [hs, if_true]
-        refine ⟨?_, by simpa using hi.enabled, by simpa [evRuns] using hi.runs, by simpa [evReplay] using hi.rep⟩
-        intro K
-        simp only [put_store, emit_store, put_trace, emit_trace, replay_cons, step_set, spec_put_store]
-        split <;> simp [hi.store K]
-      · simp [hs]; exact hi
+      refine ⟨?_, by simpa using hi.enabled, by simpa [evRuns] using hi.runs, by simpa [evReplay] using hi.rep⟩
+      intro K
+      simp only [put_store, emit_store, put_trace, emit_trace, replay_cons, step_set, spec_put_store]
+      split <;> simp [hi.store K]
   | get t k kw =>
     simp only [step]
     cases ht : w.tmpls[t]? with
@@ -296,18 +293,15 @@ theorem step_own (w : World R) (hd : IdsDistinct w) (st : St R) (op : Op) (hi : 
     cases ht : w.tmpls[t]? with
     | none => simpa using hi
     | some tm =>
-      by_cases hs : w.be.hasSet = true
-      · simp only [hs, if_true]
-        refine ⟨?_, by simpa [evOwn] using hi.own⟩
-        intro K e
-        simp only [put_trace, emit_trace, replay_cons, step_set, spec_put_store]
-        split
-        · rename_i hK
-          intro he
-          cases he
-          exact ⟨tm, ht, by simp [hK]⟩
-        · exact hi.owned K e
-      · simp [hs]; exact hi
+      refine ⟨?_, by simpa [evOwn] using hi.own⟩
+      intro K e
+      simp only [put_trace, emit_trace, replay_cons, step_set, spec_put_store]
+      split
+      · rename_i hK
+        intro he
+        cases he
+        exact ⟨tm, ht, by simp [hK]⟩
+      · exact hi.owned K e
   | get t k kw =>
     simp only [step]
     cases ht : w.tmpls[t]? with
@@ -428,7 +422,7 @@ theorem step_regMono (w : World R) (st0 st : St R) (op : Op) (hi : RegMono st0 s
     simp only [step]
     cases ht : w.tmpls[t]? with
     | none => simpa using hi
-    | some tm => by_cases hs : w.be.hasSet = true <;> simpa [hs, RegMono] using hi
+    | some tm => simpa [RegMono] using hi
   | get t k kw =>
     simp only [step]
     cases ht : w.tmpls[t]? with
@@ -509,7 +503,7 @@ theorem step_memo (w : World R) (st : St R) (op : Op) (hop : op.isCallableInvali
     simp only [step]
     cases ht : w.tmpls[t]? with
     | none => simpa using hi
-    | some tm => by_cases hs : w.be.hasSet = true <;> simpa [hs, MemoFromRender] using hi
+    | some tm => simpa [MemoFromRender] using hi
   | get t k kw =>
     simp only [step]
     cases ht : w.tmpls[t]? with
